@@ -165,6 +165,25 @@ Fixpoint strip (o : obj) : obj :=
   | _ => o
   end.
 
+(* only the keys with the private prefix are removed (ids stay): used to compare shapes *)
+Fixpoint strip_us (o : obj) : obj :=
+  match o with
+  | OInst c i d =>
+      OInst c i ((fix go (l : list (string * obj)) : list (string * obj) :=
+                    match l with
+                    | [] => []
+                    | kv :: r => match kv with (k, v) => if has_skip_prefix k then go r else (k, strip_us v) :: go r end
+                    end) d)
+  | ODict items =>
+      ODict ((fix go (l : list (string * obj)) : list (string * obj) :=
+                match l with
+                | [] => []
+                | kv :: r => match kv with (k, v) => if has_skip_prefix k then go r else (k, strip_us v) :: go r end
+                end) items)
+  | OSeq l => OSeq ((fix go (l : list obj) : list obj := match l with [] => [] | x :: r => strip_us x :: go r end) l)
+  | _ => o
+  end.
+
 (* the identifier: md5 of the joined tokens (md5 is a parameter everywhere) *)
 Definition joined (py_str : float -> string) (o : obj) : string := String.concat join_sep (tokens py_str o).
 Definition ident (md5 : string -> string) (py_str : float -> string) (o : obj) : string := md5 (joined py_str o).
@@ -252,7 +271,7 @@ Definition fam_fields (f : family) : list string :=
 Definition fam_has_ms (f : family) : bool :=
   match f with FUniform | FLogUniform => false | _ => true end.
 
-Definition info_fields (fs : list string) : info := mkinfo (Some fs) false [] None.
+Definition info_fields (fs : list string) (mo : bool) : info := mkinfo (Some fs) mo [] None.
 Definition info_mo : info := mkinfo None true [] None.
 Definition info_plain (cargs : list string) : info := mkinfo None false ("self" :: cargs) None.
 
@@ -260,7 +279,7 @@ Definition info_plain (cargs : list string) : info := mkinfo None false ("self" 
 Fixpoint reify (n : node) : obj :=
   match n with
   | NPrior pid fam lo hi mean sigma =>
-      OInst (fam_name fam) (info_fields (fam_fields fam))
+      OInst (fam_name fam) (info_fields (fam_fields fam) true)
         (("id", OInt pid) :: ("lower_limit", OFloat lo) :: ("upper_limit", OFloat hi) ::
          (if fam_has_ms fam then [("mean", OFloat mean); ("sigma", OFloat sigma)] else []))
   | NFloat v => OFloat v
@@ -294,7 +313,7 @@ Fixpoint reify (n : node) : obj :=
         ((fix go (l : list (string * node)) : list (string * obj) :=
             match l with [] => [] | kv :: r => match kv with (k, v) => (k, reify v) :: go r end end) attrs)
   | NSearch cname fields attrs =>
-      OInst cname (info_fields fields)
+      OInst cname (info_fields fields false)
         ((fix go (l : list (string * node)) : list (string * obj) :=
             match l with [] => [] | kv :: r => match kv with (k, v) => (k, reify v) :: go r end end) attrs)
   end.
@@ -386,10 +405,11 @@ Fixpoint reload (n : node) : option node :=
       | None => None
       end
   | NInst cname cargs attrs =>
+      (* instance_as_dict keeps the constructor arguments and the class is called again with them:
+         the constructor is assumed to be a function of its arguments *)
       match all_some ((fix go (l : list (string * node)) : list (string * option node) :=
                          match l with [] => [] | kv :: r => match kv with (k, v) => (k, reload v) :: go r end end) attrs) with
-      | Some attrs' =>
-          match by_ctor cargs attrs' with Some a => Some (NInst cname cargs a) | None => None end
+      | Some attrs' => Some (NInst cname cargs attrs')
       | None => None
       end
   | NSearch cname fields attrs =>
@@ -426,7 +446,7 @@ Definition check_case (c : case) : bool :=
   | CWalk tbl live raised hl =>
       Bool.eqb (raises live) raised && (raised || slist_eqb (tokens (str_table tbl) live) hl)
   | CFit tbl s m tag ls lm hl =>
-      obj_eqb (strip (reify s)) (strip ls) && obj_eqb (strip (reify m)) (strip lm)
+      obj_eqb (strip_us (reify s)) (strip_us ls) && obj_eqb (strip_us (reify m)) (strip_us lm)
       && negb (raises (fit_obj s m tag))
       && slist_eqb (tokens (str_table tbl) (fit_obj s m tag)) hl
       && slist_eqb (tokens (str_table tbl) (fit_obj_output s m tag)) hl
